@@ -1439,6 +1439,10 @@ def _containment_edges(repo, ob, failure):
     r = run_svgdx(repo, d1, args=("--no-auto-styles",))
     if r["rc"] == 0:
         return {"input": d1, "args": ["--no-auto-styles"], "observed": r["out"].strip()[-160:], "expected": "an error: #a and #b have no point in common"}
+    d3 = '<svg><rect id="a" wh="20 10"/><rect inside="#a" margin="60%"/></svg>'
+    r = run_svgdx(repo, d3, args=("--no-auto-styles",))
+    if r["rc"] == 0 and ('height="-' in r["out"] or 'width="-' in r["out"]):
+        return {"input": d3, "args": ["--no-auto-styles"], "observed": r["out"].strip()[-120:], "expected": "an error: the margin leaves no area inside #a"}
     d2 = '<svg><defaults><rect margin="2"/></defaults><rect id="a" wh="10 20"/><rect surround="#a"/></svg>'
     r = run_svgdx(repo, d2, args=("--no-auto-styles",))
     if r["rc"] == 0 and "margin=" in r["out"]:
@@ -1685,3 +1689,5 @@ def _radius_spellings_beside(repo, ob, failure):
 
 GENERATORS.insert(0, ("C09.size.radius", _radius_spellings_beside))
 GENERATORS.insert(0, ("C11.size.radius", _radius_spellings_beside))
+
+GENERATORS.insert(0, ("C12.margin.", _containment_edges))
